@@ -7,17 +7,18 @@ SCHEMA = f'''<xs:schema {XS} targetNamespace="urn:t" xmlns:t="urn:t" elementForm
    <xs:element name="item" maxOccurs="unbounded"><xs:complexType><xs:sequence>
       <xs:element name="name" type="xs:token"/><xs:element name="qty" type="xs:positiveInteger"/>
       <xs:element name="kind" type="xs:token" fixed="article" minOccurs="0"/>
-      <xs:element name="val" minOccurs="0"/>
+      <xs:element name="val" minOccurs="0" nillable="true"/>
       <xs:element name="mark" minOccurs="0"><xs:complexType><xs:attribute name="m" type="xs:int"/></xs:complexType></xs:element>
       <xs:element name="sub" minOccurs="0" maxOccurs="unbounded"><xs:complexType><xs:sequence>
           <xs:element name="leaf" type="xs:int" minOccurs="0" maxOccurs="3"/></xs:sequence>
-          <xs:attribute name="ref" type="xs:IDREF"/><xs:attribute name="codeRef" type="xs:int"/></xs:complexType></xs:element>
+          <xs:attribute name="ref" type="xs:IDREF"/><xs:attribute name="codeRef" type="xs:int"/><xs:attribute name="uid" type="xs:int"/></xs:complexType></xs:element>
       <xs:any namespace="##other" processContents="strict" minOccurs="0" maxOccurs="unbounded"/>
      </xs:sequence><xs:attribute name="id" type="xs:ID" use="required"/><xs:attribute name="code" type="xs:int" use="required"/><xs:attribute name="lang" type="xs:language"/></xs:complexType></xs:element>
   </xs:sequence><xs:attribute name="first" type="xs:int"/></xs:complexType>
   <xs:keyref name="R0" refer="t:K"><xs:selector xpath="."/><xs:field xpath="@first"/></xs:keyref>
   <xs:key name="K"><xs:selector xpath="t:item"/><xs:field xpath="@code"/></xs:key>
   <xs:keyref name="R" refer="t:K"><xs:selector xpath="t:item/t:sub"/><xs:field xpath="@codeRef"/></xs:keyref>
+  <xs:unique name="U"><xs:selector xpath="t:item/t:sub"/><xs:field xpath="@uid"/></xs:unique>
  </xs:element></xs:schema>'''
 
 
